@@ -9,7 +9,7 @@ Open Scope Z_scope.
 Definition ecode_eqb a b :=
   match a, b with
   | EUser x, EUser y => x =? y
-  | EFault, EFault | ETxDone, ETxDone | EInvalidTx, EInvalidTx | ENoSp, ENoSp | EUnsupported, EUnsupported | EOther, EOther => true
+  | EFault, EFault | ETxDone, ETxDone | EInvalidTx, EInvalidTx | ENoSp, ENoSp | EUnsupported, EUnsupported | ECanceled, ECanceled | EOther, EOther => true
   | _, _ => false
   end.
 Definition err_eqb a b := ecode_eqb (e_code a) (e_code b) && Bool.eqb (e_wrapped a) (e_wrapped b).
@@ -54,7 +54,7 @@ Record case := mk_case {
 
 Definition model_agrees (c : case) : bool :=
   let '(o, x, s) := run_top ref_env (c_cfg c) (fault_at (c_fault c)) (c_manual c) (c_prog c) (c_extra c) (init_st []) in
-  scoped [] (c_prog c)    (* the generator's contract: the program is in the domain of the theorems *)
+  scoped [] (c_prog c) && cancel_ok false (c_prog c)   (* the generator's contract *)
   && obs_eqb o (o_top c)
   && list_eqb cls_eqb x (o_extra c)
   && list_eqb cls_eqb (run_stray (c_stray c)) (o_stray c)
@@ -151,12 +151,24 @@ Definition usable (top : obs) (ops : list (opkind * bool)) : bool :=
   errs_explained (stmt_errs top) KStmt ops && errs_explained (save_errs top) KSave ops.
 
 (* with a dialector that has no save points a SavePoint / RollbackTo call reports exactly
-   ErrUnsupportedDriver (that is not a failure of the enclosing transaction) *)
-Definition usable_cfg (nosp : bool) (top : obs) (ops : list (opkind * bool)) : bool :=
-  if nosp then
-    errs_explained (stmt_errs top) KStmt ops
-    && forallb (fun e => cls_eqb e (CErr (mkErr EUnsupported false))) (save_errs top ++ rb_errs top)
-  else usable top ops.
+   ErrUnsupportedDriver (that is not a failure of the enclosing transaction); in a program that
+   cancels the context of a block, calls made under that context report context.Canceled *)
+Definition is_canceled (e : cls) := cls_eqb e (CErr canceled_err).
+Definition usable_cfg (nosp cancels : bool) (top : obs) (ops : list (opkind * bool)) : bool :=
+  let stmts := if cancels then filter (fun e => negb (is_canceled e)) (stmt_errs top) else stmt_errs top in
+  let saves := if cancels then filter (fun e => negb (is_canceled e)) (save_errs top) else save_errs top in
+  errs_explained stmts KStmt ops
+  && (if nosp
+      then forallb (fun e => cls_eqb e (CErr (mkErr EUnsupported false))) (save_errs top ++ rb_errs top)
+      else errs_explained saves KSave ops).
+
+(* a Commit issued after the transaction has ended cannot have committed anything: it must
+   report an error (true = Commit in the list of further calls) *)
+Fixpoint extras_ok (calls : list bool) (res : list cls) : bool :=
+  match calls, res with
+  | c :: cs, r :: rs => (negb c || negb (is_nil r)) && extras_ok cs rs
+  | _, _ => true
+  end.
 
 (* outside the atomicity statement: the database refused the ROLLBACK TO of a failing block
    (a faulted ROLLBACK TO that no RollbackTo call of the program reported) *)
@@ -168,6 +180,7 @@ Definition spec_holds (c : case) : bool :=
   && (rb_refused (o_top c) (o_ops c)
       || (same_set (o_table c) (spec_final (negb (c_nonest (c_cfg c))) (o_top c) (o_ops c) [])
           && top_ok (o_top c) (o_ops c)
-          && usable_cfg (c_nosp (c_cfg c)) (o_top c) (o_ops c))).
+          && usable_cfg (c_nosp (c_cfg c)) (negb (no_cancel (c_prog c))) (o_top c) (o_ops c)
+          && extras_ok (c_extra c) (o_extra c))).
 
 Definition check_case (c : case) : N := code_of (model_agrees c) (spec_holds c).
